@@ -304,6 +304,81 @@ fn compress_case(rep: &Report, idx: usize, seed: u64) -> Option<String> {
     res.err()
 }
 
+/// Compress under an injected fault at a file operation on its temp file or archive
+/// (k-th write, the re-open of the temp file, the final unlink). The statement is about
+/// SUCCESSFUL runs: whatever the fault, exit status 0 must mean "exactly the archive is
+/// new and the temp file is gone". A run that reports the failure is outside it.
+fn compress_fault_case(rep: &Report, idx: usize, seed: u64) -> Option<String> {
+    let mut rng = Rng::new(seed).fork(0x16f0 + idx as u64);
+    let dir = scn::case_dir("C16", 120_000 + idx);
+    let res = (|| -> Result<(), String> {
+        let src_len = rng.urange(1, 30_000);
+        let class = *rng.pick(&gen::SRC_CLASSES);
+        let source = gen::gen_source(&mut rng, class, src_len);
+        let cfg = gen::gen_cli_cfg(&mut rng, false);
+        let comp = *rng.pick(&[Comp::None, Comp::Brotli(2)]);
+        let mut spec = CompressSpec::new(cfg, comp, 64);
+        spec.stdin = if rng.chance(1, 3) { Some(rng.next_u64() | 1) } else { None };
+        let (mut run, _) = scn::compress_run(&dir, "a", &source, &spec);
+        let odir = dir.join("outdir");
+        std::fs::create_dir_all(&odir).unwrap();
+        let out = odir.join("a.cba");
+        let n = run.args.len();
+        run.args[n - 1] = p(&out);
+        let temp = scn::temp_path_of(&out);
+        run.watch = vec![out.clone(), temp.clone()];
+        let errno = *rng.pick(&[libc::EACCES, libc::EPERM, libc::EBUSY, libc::EIO, libc::ENOSPC]);
+        let what = match idx % 5 {
+            0 | 1 => {
+                run.ns_fault = Some(format!("1,unlink,{}", errno));
+                "unlink of the temp file"
+            }
+            2 => {
+                // the temp file is opened twice: to write it, then to copy it into the archive
+                run.ns_fault = Some(format!("1,open,{},2", errno));
+                "re-open of the temp file"
+            }
+            3 => {
+                run.fault = Some(format!("1,{},errno,{}", rng.urange(0, 3), errno));
+                "write to the temp file"
+            }
+            _ => {
+                run.fault = Some(format!("0,{},errno,{}", rng.urange(0, 4), errno));
+                "write to the archive"
+            }
+        };
+        let before = listing(&odir);
+        let o = proc::run(&run);
+        rep.eval();
+        if o.exit == Exit::Timeout {
+            rep.inconclusive("watchdog");
+            return Ok(());
+        }
+        let fired = o.shim.iter().any(|r| r.kind == crate::proc::K_FAULT);
+        if !fired {
+            rep.count("compress_fault.fault_not_reached", 1);
+            return Ok(());
+        }
+        rep.count("compress_fault.faults_fired", 1);
+        rep.seen("compress_fault.kinds", format!("{}/errno {}", what, errno));
+        if !o.exit.ok() {
+            rep.count("compress_fault.reported_as_failure", 1);
+            rep.nontrivial(format!("compressfault:{}:{}#{}", what, errno, idx));
+            return Ok(());
+        }
+        let after = listing(&odir);
+        let mut want = before.clone();
+        want.insert("a.cba".into());
+        if after != want {
+            return Err(format!("compress exited 0 although the {} failed (errno {}), and the output directory holds {:?} instead of {:?}", what, errno, after, want));
+        }
+        rep.nontrivial(format!("compressfault-ok:{}:{}#{}", what, errno, idx));
+        Ok(())
+    })();
+    scn::cleanup(&dir, res.is_err());
+    res.err()
+}
+
 /// Clones that FAIL late (after the output has been opened / written): wrong source
 /// checksum with --verify-output, a corrupted chunk payload, a truncated archive. The
 /// rule is the same: nothing but the output is written, nothing is removed or renamed.
@@ -471,11 +546,26 @@ pub fn run(tier: Tier, seed: u64) -> i32 {
             );
         }
     }
+    let nx = tier.pick(60, 1500);
+    let res = par_map(nx, crate::util::ncpu(), |i| (i, compress_fault_case(&rep, i, seed)));
+    for (i, r) in res {
+        if let Some(why) = r {
+            let class: String = why.split(" failed").next().unwrap_or("").chars().take(80).collect();
+            rep.violation(
+                &format!("c16/compress-fault/{}", class.trim()),
+                json!({"why": why, "work_dir": format!("/verif/.work/C16/c{}", 120_000 + i)}),
+                json!({"engine": "compress_fault", "idx": i, "seed": seed}),
+            );
+        }
+    }
+    if rep.counter("compress_fault.faults_fired") == 0 {
+        rep.broken("no injected compress fault was reached".into());
+    }
     if rep.counter("clone.file_opens_observed") == 0 || rep.counter("compress.temp_unlinks_observed") == 0 {
         rep.broken("strace monitor observed no opens / no temp-file unlink".into());
     }
     rep.finish(
-        "real `bita clone` in every mode (plain, 1-4 seed files, stdin seed, --seed-output on regular file and block device via hook, --force-create on existing, --verify-header, --verify-output; local and HTTP) and real `bita compress` (file and stdin input, all codecs, --force-create, metadata files, output names with no / several extensions) each run under `strace -f` with resolved paths; verdict per the rule in the header plus directory listings before/after; non-trivial = distinct traced runs judged",
+        "real `bita clone` in every mode (plain, 1-4 seed files, stdin seed, --seed-output on regular file and block device via hook, --force-create on existing, --verify-header, --verify-output; local and HTTP) and real `bita compress` (file and stdin input, all codecs, --force-create, metadata files, output names with no / several extensions, stale temp file / neighbour files present) each run under `strace -f` with resolved paths; compress under injected errno faults (LD_PRELOAD shim) at the final unlink of the temp file, its re-open, a write to it or to the archive: exit 0 must still mean that only the archive is new; verdict per the rule in the header plus directory listings before/after; non-trivial = distinct traced runs judged",
         &[
             "character devices, /proc, /sys, sockets, pipes and read-only opens of system files are not files written by the command and are ignored by rule",
             "strace sees raw syscalls of all threads (-f); a process that bypassed libc would still be seen",
@@ -491,6 +581,8 @@ pub fn replay(v: &Value) -> i32 {
     rep.replay_mode = true;
     let res = if r["engine"] == "clone" {
         clone_case(&rep, 900_000, &Scenario::from_json(&r["scenario"]), false)
+    } else if r["engine"] == "compress_fault" {
+        compress_fault_case(&rep, r["idx"].as_u64().unwrap_or(0) as usize, r["seed"].as_u64().unwrap_or(1))
     } else if r["engine"] == "failing_clone" {
         failing_clone_case(&rep, r["idx"].as_u64().unwrap_or(0) as usize, r["seed"].as_u64().unwrap_or(1))
     } else {
